@@ -15,6 +15,7 @@ import (
 	"github.com/paulsonkoly/chess-3/search"
 	"github.com/paulsonkoly/chess-3/stack"
 
+	"verif/harness/conv"
 	"verif/harness/eng"
 	"verif/harness/ev"
 	"verif/harness/gen"
@@ -106,7 +107,7 @@ func runPicker(r *ev.Run, s *state, p *ref.Pos, b *board.Board, genList []move.M
 	s.ms.Pop()
 	r.Eval(1)
 	s.lc.C["picker_runs"]++
-	wit := witness{Kind: "picker", FEN: p.FEN(), Hash: int(h), Ranker: s.rname, Stack: stackDesc}
+	wit := witness{Kind: "picker", FEN: p.FEN(), Hash: conv.Triple(h), Ranker: s.rname, Stack: stackDesc}
 	same := len(got) == len(inGen)
 	if same {
 		for m, c := range got {
@@ -124,7 +125,7 @@ func runPicker(r *ev.Run, s *state, p *ref.Pos, b *board.Board, genList []move.M
 		}
 		for m, c := range got {
 			if inGen[m] == 0 {
-				extra = append(extra, encStr(int(m)))
+				extra = append(extra, encStr(conv.Triple(m)))
 			} else if c > 1 {
 				dup = append(dup, m.String())
 			}
@@ -136,7 +137,7 @@ func runPicker(r *ev.Run, s *state, p *ref.Pos, b *board.Board, genList []move.M
 		} else if len(extra) > 0 {
 			cls = "extra"
 		}
-		r.Violation("C16:not-a-permutation:"+cls, wit, fmt.Sprintf("%s hash candidate %s ranker %s: yielded %d moves, generator has %d; missing %v, not generated %v, twice %v", p.FEN(), encStr(int(h)), s.rname, n, len(genList), missing, extra, dup))
+		r.Violation("C16:not-a-permutation:"+cls, wit, fmt.Sprintf("%s hash candidate %s ranker %s: yielded %d moves, generator has %d; missing %v, not generated %v, twice %v", p.FEN(), encStr(conv.Triple(h)), s.rname, n, len(genList), missing, extra, dup))
 		return
 	}
 	if _, ok := inGen[h]; ok {
@@ -270,7 +271,7 @@ func TestCheck(t *testing.T) {
 			r.Progress()
 			var next ref.Move
 			for _, m := range l {
-				if move.Move(m) == bm {
+				if conv.M(m) == bm {
 					next = m
 				}
 			}
@@ -329,17 +330,17 @@ func TestCheck(t *testing.T) {
 			var h move.Move
 			switch k % 4 {
 			case 0:
-				h = move.Move(rng.IntN(1 << 15))
+				h = conv.FromTriple(rng.IntN(1 << 15))
 			case 1: // a generated move with other promotion bits
 				if len(g) > 0 {
-					h = g[rng.IntN(len(g))]&0x0fff | move.Move(rng.IntN(8))<<12
+					h = conv.FromTriple(conv.Triple(g[rng.IntN(len(g))])&0x0fff | rng.IntN(8)<<12)
 				}
 			case 2: // from-square of a real piece, random target
 				if len(g) > 0 {
-					h = g[rng.IntN(len(g))]&0x0fc0 | move.Move(rng.IntN(64)) | move.Move(rng.IntN(8)*rng.IntN(2))<<12
+					h = conv.FromTriple(conv.Triple(g[rng.IntN(len(g))])&0x0fc0 | rng.IntN(64) | rng.IntN(8)*rng.IntN(2)<<12)
 				}
 			default:
-				h = move.Move(rng.IntN(1 << 12))
+				h = conv.FromTriple(rng.IntN(1 << 12))
 			}
 			runPicker(r, s, &p, b, g, inGen, h, sd)
 		}
@@ -479,5 +480,5 @@ func replay(t *testing.T, r *ev.Run) {
 		s.hst.Push(heur.StackMove{Piece: chess.Piece(pc), To: chess.Square(to)})
 	}
 	fmt.Printf("replay: %s hash candidate %s with an empty ranker (the recorded ranker state %q is not serialised)\n", w.FEN, encStr(w.Hash), w.Ranker)
-	runPicker(r, s, &p, b, g, inGen, move.Move(w.Hash), w.Stack)
+	runPicker(r, s, &p, b, g, inGen, conv.FromTriple(w.Hash), w.Stack)
 }
